@@ -42,6 +42,27 @@ fn finite_memory<T: Dom>(vk: VK, harness_ma: Option<usize>, kk: usize, p: usize,
         T::oblige(&format!("{} prefixes {p}/{q}, after {} shared values (K={kk}): both histories give the same output", vk.name(), t + 1), opt_eq(a.last(), b.last()));
     }
 }
+#[derive(Clone, Copy, Debug, PartialEq)]
+enum Tail { Decreasing, Increasing, AltThenFlat }
+/// long shared suffix (much longer than the window) after private prefixes of different lengths: state that is maintained
+/// lazily or by counters (compaction, periodic rebuilds) gets out of phase between the two histories
+fn finite_memory_long<T: Dom>(vk: VK, kk: usize, p: usize, q: usize, tail: Tail, len: usize) {
+    let (mut a, mut b) = (mk::<T>(&vk, None), mk::<T>(&vk, None));
+    for i in 0..p { a.update(T::input(&format!("a{i}"))); }
+    for i in 0..q { b.update(T::input(&format!("b{i}"))); }
+    let mut prev: Option<T> = None;
+    for t in 0..len {
+        let s = match tail {
+            Tail::Decreasing => match prev { None => T::input("s0"), Some(x) => { let d = T::input(&format!("posd{t}")); T::assume(lt(T::zero(), d)); x - d } },
+            Tail::Increasing => match prev { None => T::input("s0"), Some(x) => { let d = T::input(&format!("posd{t}")); T::assume(lt(T::zero(), d)); x + d } },
+            Tail::AltThenFlat => if t + 7 < len { if t % 2 == 0 { T::input("u") } else { T::input("v") } } else if t + 2 < len { T::input("c") } else { T::input(&format!("s{t}")) },
+        };
+        prev = Some(s);
+        a.update(s);
+        b.update(s);
+        if t + 1 >= kk { T::oblige(&format!("{} prefixes {p}/{q}, after {} shared values (K={kk}, {tail:?} suffix): both histories give the same output", vk.name(), t + 1), opt_eq(a.last(), b.last())); }
+    }
+}
 pub fn units(tier: Tier, _seed: u64) -> Vec<Unit> {
     let q_ = tier == Tier::Quick;
     let ns: Vec<usize> = if q_ { vec![1, 2] } else { vec![1, 2, 3, 4] };
@@ -74,13 +95,24 @@ pub fn units(tier: Tier, _seed: u64) -> Vec<Unit> {
             }
         }
     }
-    for x in u.iter_mut() { x.budget_s = if q_ { 90.0 } else { 900.0 }; }
+    for &n in &(if q_ { vec![1usize, 2, 3] } else { vec![1usize, 2, 3, 4, 6] }) {
+        let len = 10 * n + 8;
+        for (p, q) in [(1usize, 3usize), (0, 2)] {
+            for tail in [Tail::Decreasing, Tail::Increasing] {
+                for vk in [VK::Min(n), VK::Max(n), VK::HLNormalizer(n)] { u.push(unit!(format!("C03/{}/K={n}/prefix={p},{q}/long-{tail:?}/len={len}", vk.name()), finite_memory_long(vk.clone(), n, p, q, tail, len))); }
+            }
+            if n >= 2 { for vk in [VK::Sma(n), VK::Cumulative(n), VK::WelfordOnline(n), VK::Vst(n), VK::Vsct(n), VK::Max(n), VK::BinaryEntropy(n), VK::CoG(n)] {
+                u.push(unit!(format!("C03/{}/K={n}/prefix={p},{q}/long-AltThenFlat/len={len}", vk.name()), finite_memory_long(vk.clone(), n, p, q, Tail::AltThenFlat, len)));
+            } }
+        }
+    }
+    for x in u.iter_mut() { x.budget_s = if q_ { 30.0 } else { 900.0 }; x.max_decisions = 60000; x.path_cap = if q_ { 3000 } else { 20000 }; }
     u
 }
 pub fn meta() -> Meta {
     Meta {
         functions: vec!["Sma", "Cumulative", "Min", "Max", "Roc", "WelfordOnline", "Vst", "Vsct", "HLNormalizer", "BinaryEntropy", "CenterOfGravity", "CorrelationTrendIndicator", "NoiseEliminationTechnology", "Rsi", "MyRSI", "Alma", "PolarizedFractalEfficiency over Sma(M) and over a harness M-window mean — each ::{new,update,last}, two instances"],
-        bounds: "N in {1,2} (quick) / {1..4} (thorough) (CTI/NET/PFE at their minimum 3, NET to 4); private prefix lengths (p,q) in {(0,1),(1,2)} (quick) / {(0,1),(1,0),(1,2),(2,1),(0,3),(3,1)} (thorough); shared suffix K as in the statement, plus one further shared value; prefix values are unconstrained reals ('arbitrarily large'); exceptions encoded as assumptions on the shared suffix only (MyRSI: suffix not flat; Roc: x_(t-N) != 0); all comparison outcomes of both instances",
+        bounds: "N in {1,2} (quick) / {1..4} (thorough) (CTI/NET/PFE at their minimum 3, NET to 4); private prefix lengths (p,q) in {(0,1),(1,2)} (quick) / {(0,1),(1,0),(1,2),(2,1),(0,3),(3,1)} (thorough); shared suffix K as in the statement, plus one further shared value; prefix values are unconstrained reals ('arbitrarily large'); exceptions encoded as assumptions on the shared suffix only (MyRSI: suffix not flat; Roc: x_(t-N) != 0); all comparison outcomes of both instances; in addition long shared suffixes (10N+8 values: strictly decreasing / increasing for Min, Max, HLNormalizer; alternating-then-flat for Sma, Cumulative, WelfordOnline, Vst, Vsct, Max, BinaryEntropy, CoG) after prefixes (1,3) and (0,2), N in {1,2,3} (quick) / {1,2,3,4,6}",
         outside: vec!["prefixes longer than 3 (a leak needing >= 4 stale values to show)", "N > 4", "'up to rounding': decided over the reals"],
         assumptions: vec![],
     }
